@@ -59,6 +59,9 @@ checks = {
  "C18": dict(cat="exploration", tech="deterministic simulation (all families) with a memory oracle underneath: exact-size metadata buffers flush against PROT_NONE guard pages; thorough tier adds an AddressSanitizer build and a reduced scenario set under Miri",
     text="An out-of-bounds access kills the worker (SIGSEGV), which the parent attributes to the announced run and confirms by replay in a child process.",
     note="guard pages catch out-of-bounds accesses only; aliasing-model UB needs the Miri layer", ref="DESIGN.md §4 C18"),
+ "C20": dict(cat="exploration", tech="deterministic discrete-event simulation of a traced multi-core kernel (simulated clock, per-core event streams, whole and partial frees) producing trace files; the shipped replay binary replays them in a separate process; oracle: conservation of frames over the recorded history",
+    text="Seeded synthetic traces (1-4 cores, orders 0..10, whole / first / middle / last part and part-of-part frees, frees of unknown pfns) in the on-disk trace format; the replayer's final free_frames must equal managed minus what the trace still holds, no 'Free failed' line, exit status 0. Failing traces are minimised (ddmin over events).",
+    note="the binary only exposes counts and log lines; replayer out-of-memory (placement differs from the traced kernel) is counted as inconclusive, not as a violation; re-allocation of a still-present pfn is not generated", ref="DESIGN.md §4 C20"),
  "C21": dict(cat="exploration", tech=T_CONC + " with solo windows: at seeded scheduling points all threads but one are frozen and the in-flight call of that thread must return within a step budget",
     text="Three solo windows per run in the quick tier; exceeding the budget (64 x (rows per huge frame + TREE_HUGE + trees + slots) atomic steps) or the global step cap is a violation; the maximum observed is reported.",
     note="spurious CAS failures are disabled inside solo windows", ref="DESIGN.md §4 C21"),
@@ -78,7 +81,7 @@ for pid, reason in extra_na:
 
 m = {
  "version": 1,
- "setup_cmd": "cd /verif/sim && CARGO_NET_OFFLINE=true cargo build --release --offline",
+ "setup_cmd": "cd /verif/sim && CARGO_NET_OFFLINE=true cargo build --release --offline && CARGO_NET_OFFLINE=true cargo build --release --offline --manifest-path /repo/eval/Cargo.toml --bin replay --target-dir /verif/sim/target/eval",
  "hooks": {
    "guard": "cargo feature `verif` of crate llfree (core/Cargo.toml), off by default",
    "enable": "llsim depends on llfree by path (/repo/core) with features std,verif; every check command runs `cargo build` first, so it rebuilds from /repo's current working tree",
